@@ -106,6 +106,14 @@ theorem commit_releases_all_partial (ops : List Op) (h : Admissible init (ops ++
 theorem chk_noleak_ok_partial (ops : List Op) (h : Admissible init ops = true) : leaked (run init ops) = [] :=
   leaked_nil_of_inv (run_inv ops init init_inv h)
 
+/-- the exclusion of lock calls is EXACT, for every state: whenever a call is in the excluded situation (`relock`, `excludedLock`),
+    its request is really sent and the store still holds the previous attempt's lock on the key, which is in neither
+    currentLockedKeys nor flagged, then right after the call the key is leaked (held by the store, tracked nowhere) -/
+theorem excluded_lock_is_exact (s : State) (i : LockIn) (k : Key) (hcl : s.closed = false) (hwf : wfLock i = true)
+    (hr : relock s i = some k) (hx : excludedLock s i = true) (hs0 : s.req = []) (hreq : (lockStep s i).req ≠ [])
+    (hst : k ∈ s.store) (hc : k ∉ keysOf s.current) (hf : k ∉ fkeys s.flagged) : k ∈ leaked (lockStep s i) :=
+  excluded_lock_leaks hcl hwf hr hx hs0 hreq hst hc hf
+
 /-- the FULL statement (only the store's contract assumed) is false for the code as it is: the known leak -/
 theorem noleak_full_false : ¬ ∀ ops : List Op, WellFormed ops = true → leaked (run init ops) = [] := by
   intro h
@@ -139,6 +147,12 @@ example : Admissible init (sampleRun.take 7) = true ∧ ((run init (sampleRun.ta
 example : Admissible init (sampleRun ++ [.rollback]) = true ∧ (run init sampleRun).store.length = 4 := by decide
 example : Admissible init (sampleRun ++ [.commit]) = true ∧ (run init (sampleRun ++ [.commit])).cm.length = 4 := by decide
 example : Admissible init (sampleRun ++ [.rollback]) = true ∧ (run init (sampleRun ++ [.rollback])).closed = true := by decide
+-- `excluded_lock_is_exact` is not vacuous: the state before the excluded step of the known leak satisfies its hypotheses
+example : let s := clearOut (run init (witnessLoie.take 3))
+    s.closed = false ∧ relock s { keys := [1], o := { rv := true, loie := true }, fu := 11, ans := [{ key := 1, exist := false }] } = some 1 ∧
+    excludedLock s { keys := [1], o := { rv := true, loie := true }, fu := 11, ans := [{ key := 1, exist := false }] } = true ∧
+    (lockStep s { keys := [1], o := { rv := true, loie := true }, fu := 11, ans := [{ key := 1, exist := false }] }).req = [1] ∧
+    s.store = [1] ∧ s.current = [] ∧ s.flagged = [] := by decide
 -- the witnesses are outside the fragment exactly at the excluded step
 example : Admissible init (witnessLoie.take 3) = true ∧ Admissible init (witnessLoie.take 4) = false := by decide
 example : Admissible init (witnessKeyExists.take 4) = true ∧ Admissible init (witnessKeyExists.take 5) = false := by decide
